@@ -242,14 +242,15 @@ def render(model, rng=None, style=None):
     if style["blank"] and rng.random() < 0.5:
         out.append("")
     if style["comments"] and rng.random() < 0.5:
-        out.append("# generated option file")
+        # (comments are free text: accents, Greek letters and arrows included -- the files are UTF-8)
+        out.append(rng.choice(["# generated option file", "# D\u2070 \u2192 K\u207b \u03c0\u207a \u03c0\u207a \u03c0\u207b, fit by Jos\u00e9 M\u00fcller", "# r\u00e9sonances: K*(892), \u03c1(770)"]))
     for s in mixed:
         ind = rng.choice(["", "  ", "\t", "    "]) if style["indent"] else ""
         out.append(ind + s + (rng.choice(["", "  # trailing comment", " #x"]) if style["comments"] and rng.random() < 0.3 else ""))
         if style["blank"] and rng.random() < 0.2:
             out.append("")
         if style["comments"] and rng.random() < 0.15:
-            out.append("# D0{K-,pi+} 2 1 0 2 0 0")
+            out.append(rng.choice(["# D0{K-,pi+} 2 1 0 2 0 0", "# \u0394m = 0.5 ps\u207b\u00b9  D0{K-,pi+} 2 1 0 2 0 0"]))
     return nl.join(out) + nl
 
 
@@ -474,6 +475,10 @@ def gen_fourbody(rng, event_idx=None, picks=None, namps=None, dangle=True, templ
         mag = round(rng.uniform(0.1, 2), 5) if rng.random() < 0.85 else rng.choice(["2.5e-09", "1e-300", "7.25e-13", "3.3e-7"])       # also very small couplings
         ln["nums"] = ((0 if free else 2), mag, round(rng.uniform(0.001, 0.1), 5),
                       (0 if free else 2), round(rng.uniform(-3.1, 3.1), 5), round(rng.uniform(0.001, 0.1), 5))
+        if ln["kind"] == "top" and rng.random() < 0.12:
+            # a component switched off without deleting its line: coupling exactly zero, no uncertainty (it is still an amplitude of the model)
+            ln["nums"] = rng.choice([(2, 0, 0, 2, 0, 0), (0, 0, 0, 0, 0, 0), (2, 0, 0, 2, round(rng.uniform(-3.1, 3.1), 3), 0), (2, "0.0", "0.0", 2, "0.0", "0.0")])
+            ln["switched_off"] = True
     params, consts = [], []
     allres = [r for ln in lines for r in resonances(ln["node"])]
     for nm in sorted({r.name for r in allres if r.ls == "GSpline.EFF"}):
